@@ -5,12 +5,15 @@ PROGRAMS = [
     ("close-vs-send", {"compress": False, "threads": {"A": [["close"]], "B": [["send_text", "B1"], ["send_binary", [66, 50]]]}}),
     ("close-vs-close", {"compress": False, "threads": {"A": [["close"]], "B": [["close"], ["send_text", "B2"]]}}),
     ("close-vs-compressed-send", {"compress": True, "threads": {"A": [["send_text", "hello hello A1"], ["close"]], "B": [["send_text", "hello hello B1"]]}}),
+    # Close frames with an empty payload (close(None), the echo of a server Close without status)
+    ("empty-close-vs-send", {"compress": False, "threads": {"A": [["close_empty"]], "B": [["send_text", "B1"], ["send_binary", [66, 50]]]}}),
+    ("empty-close-echo-vs-close-and-send", {"compress": False, "threads": {"L": [["loop_close_echo_empty"]], "A": [["close"]], "B": [["send_text", "B1"]]}}),
     ("close-vs-loop-echo", {"compress": False, "threads": {"A": [["close"]], "L": [["loop_close_echo", 1000]], "B": [["send_ping", [7]]]}}),
     ("close-vs-loop-pong-and-ping", {"compress": False, "threads": {"A": [["close"]], "L": [["loop_pong", [1]], ["loop_autoping"]], "B": [["send_text", "B1"]]}}),
 ]
 BQ = {name: 1 for name, _ in PROGRAMS}
-BT = {"close-vs-send": 2, "close-vs-close": 2, "close-vs-compressed-send": 2, "close-vs-loop-echo": 1, "close-vs-loop-pong-and-ping": 1}
-RULE = ('every schedule with at most 1-2 pre-emptions (line granularity, stateless exhaustive search) of 5 thread programs built around close(): close() against '
+BT = {"empty-close-vs-send": 2, "empty-close-echo-vs-close-and-send": 1, "close-vs-send": 2, "close-vs-close": 2, "close-vs-compressed-send": 2, "close-vs-loop-echo": 1, "close-vs-loop-pong-and-ping": 1}
+RULE = ('every schedule with at most 1-2 pre-emptions (line granularity, stateless exhaustive search) of 7 thread programs built around close() (with and without a status code): close() against '
         'send_text/send_binary/send_ping, against another close(), against the loop echoing a server Close, answering a Ping and sending an automatic Ping; every '
         'sendall split in two steps; every schedule with one pre-emption at OPCODE granularity for the two-thread programs; thorough adds 6000 random opcode-granular schedules; non-trivial = distinct (program, wire order, call results)')
 
